@@ -130,6 +130,8 @@ var tyTagOpts = []string{"", "", "", ",omitempty", ",string", ",omitempty,string
 type tyGen struct {
 	r         *rng
 	hasNumber bool
+	// other pools of field and tag names (stream typeddec); nil = tyFieldNames / tyTagNames
+	names, tags []string
 }
 
 func (g *tyGen) intType() reflect.Type {
@@ -223,6 +225,9 @@ func (g *tyGen) structType(depth int) reflect.Type {
 			f.Type = t
 		} else {
 			f.Name = r.pick(tyFieldNames)
+			if g.names != nil {
+				f.Name = r.pick(g.names)
+			}
 			f.Type = g.anyType(depth)
 			if !token.IsExported(f.Name) {
 				// an unexported plain field
@@ -234,6 +239,9 @@ func (g *tyGen) structType(depth int) reflect.Type {
 		}
 		used[f.Name] = true
 		tag := r.pick(tyTagNames)
+		if g.tags != nil {
+			tag = r.pick(g.tags)
+		}
 		if embed && r.chance(2, 3) {
 			tag = ""
 		}
@@ -472,7 +480,7 @@ func renderType(b *bytes.Buffer, t reflect.Type) {
 		b.WriteByte('u')
 		b.WriteByte(tyIntCode[t.Kind()])
 	case reflect.String:
-		if t == tyNumberType {
+		if t == tyNumberType || t == tyStdNumberType {
 			b.WriteByte('n')
 		} else {
 			b.WriteByte('s')
